@@ -107,6 +107,14 @@ func (p *RunnableProcessor) Process(ctx context.Context, records []opencdc.Recor
 					sdk.ErrorRecord{Error: cerrors.New("processor returned more records than input")},
 				}
 			}
+			if len(outRecs) < len(keptRecords) {
+				// The processor skipped some of the kept records. Pad the results
+				// with empty (nil) entries so that every kept record has a slot in
+				// the merge below and the indexes stay aligned; the engine treats
+				// an empty result as "not processed" (retry / refusal), exactly as
+				// it does for a processor without a condition.
+				outRecs = append(outRecs, make([]sdk.ProcessedRecord, len(keptRecords)-len(outRecs))...)
+			}
 		}
 		if err != nil {
 			outRecs = append(outRecs, sdk.ErrorRecord{Error: err})
